@@ -1,6 +1,6 @@
 """C05: check configuration (PROP) and MANIFEST texts (TEXT)."""
 PROP = {'n_quick': 260,
- 'n_thorough': 3000,
+ 'n_thorough': 2500,
  'audit': 4,
  'audit_maxlen': 6000,
  'rule': 'three streams: (o) `opened`: the real-network doc vector of verify_tx_amt_proofs, every tamper class at every position; (i) `tamper`: explicit transactions over the C04 shape lattice blinded by the real crate under a seeded RNG, then ONE tamper of the '
